@@ -342,11 +342,16 @@ def run(cx, rep):
     rep.rule("C07.7", "twin materialisers agree (list / set, map / mapping)")
     import twins
     twins.twin_rule(cx, rep, "C07.7", r"subtyping/to_schema\.rs", floor=4)
+    # ---------------------------------------------------------------- C07.9
+    rep.rule("C07.9", "a function that enumerates the values of an enum lists every variant once")
+    n79 = enum_enumerator_rule(F, rep, "C07.9", lambda f: f.crate != WASM)
+    rep.floor("C07.9", "parameterless functions returning the list of an enum's values", n79, 2)
     # ---------------------------------------------------------------- C07.8
     rep.rule("C07.8", "a result built from one element of a sequence payload accounts for the whole sequence")
     carriers = lambda f: f.crate != "canary" and ((f.file or "").endswith(("subtyping/to_schema.rs", "ast/runtype.rs")) or "/src/print/" in (f.file or ""))
     n78 = prefix_read_rule(F, rep, "C07.8", carriers)
-    rep.floor("C07.8", "first / last / literal-index reads in the materialiser, the IR and the printer", n78, 1)
+    # (no floor on the number of reads: a tree without any prefix read satisfies the rule; the canary keeps the matcher honest)
+    rep.ob("C07.8", "scan", True, sample={"prefix_reads_in_the_materialiser_the_IR_and_the_printer": n78})
     if cx.canary is not None:
         hits = prefix_read_rule(cx.canary, None, None, lambda f: True, collect=True)
         rep.ob("C07.8", "control/canary-prefix", any("prefix_truncating" in h for h in hits) and not any("prefix_guarded" in h or "prefix_with_rest" in h for h in hits),
@@ -726,3 +731,44 @@ def prefix_read_rule(F, rep, rid, select, collect=False):
                    "%s reads only `%s` of a sequence (%s) and builds its result from that element: no length test precedes the read and the rest of the sequence is not used where the element is consumed, so every longer sequence is truncated (a template literal `a${string}` becomes the constant `a`)" % (
                        g, what, seq.get("ty")), "%s:%s" % (f.file, node["line"]), sample={"fn": g, "read": what, "sequence_type": seq.get("ty"), "justified_by": why})
     return hits if collect else n_reads
+
+
+
+def enum_enumerator_rule(F, rep, rid, select):
+    """`TypedArrayKind::all()`, `SubTypeTag::all()`: the tag walk of the materialiser and the emptiness test iterate
+    these lists instead of the enum.  A list that misses a variant (or names one twice, which silently collapses in a
+    set) makes every type that carries the WHOLE tag lose the values of the missing kind on its way to code
+    generation.  Decided for every parameterless function whose result is a list of values of one fieldless enum,
+    written as a literal: the listed variants are exactly the enum's variants, each once."""
+    n = 0
+    for g in sorted(F.hir):
+        f = F.fns.get(g)
+        if f is None or not select(f) or (f.inputs or []):
+            continue
+        for node in walk(F.hir[g]["body"]):
+            if node["k"] != "Array":
+                continue
+            els = list(_children(node))
+            if len(els) < 3 or not all(e["k"] == "Path" and e.get("res") in ("ctor", "def") and e.get("def") for e in els):
+                continue
+            enums = {e["def"].rsplit("::", 1)[0] for e in els}
+            if len(enums) != 1:
+                continue
+            en = enums.pop()
+            adt = F.adts.get(en)
+            if adt is None or adt.get("kind") != "Enum" or any(v["fields"] for v in adt["variants"]) or en.rsplit("::", 1)[-1] not in (f.output or ""):
+                continue
+            n += 1
+            listed = [e["def"].rsplit("::", 1)[-1] for e in els]
+            want = [v["name"] for v in adt["variants"]]
+            missing = sorted(set(want) - set(listed))
+            dup = sorted({x for x in listed if listed.count(x) > 1})
+            rep.ob(rid, "%s/complete" % strip_generics_(g), not missing and not dup,
+                   "%s lists the values of %s but %s: a type that carries the whole tag is materialised / tested without the missing kind, so the validator handed to code generation rejects values the computed type contains" % (
+                       g, en, "; ".join(filter(None, ["misses %s" % missing if missing else "", "names %s twice" % dup if dup else ""]))),
+                   "%s:%s" % (f.file, node["line"]), sample={"fn": g, "enum": en, "variants": len(want), "listed": len(listed)})
+    return n
+
+
+def strip_generics_(s_):
+    return re.sub(r"::<[^>]*>", "", s_)
